@@ -64,6 +64,10 @@ def sync_scenario(exe, shim, root, seed, stats, tier):
             s.fs_create(rel='new%d/%s' % (rng.below(2), 'n%d' % rng.below(50)))
     else:
         s.fs_random(3 + rng.below(5))
+        if rng.chance(1, 3):
+            # a data disk completely emptied (every file, link and directory gone) in the change set that gets interrupted
+            de = rng.choice(a.disks); fx.wipe_disk(a, de); s.log('disk %s emptied' % de)
+            stats['emptied_disk'] = stats.get('emptied_disk', 0) + 1
     s.remember()
     backup = root + '.bak'
     shutil.copytree(a.root, backup, symlinks=True)
@@ -321,6 +325,46 @@ def directed_copies(exe, shim, root, seed):
     a.destroy()
     return out
 
+def directed_emptied(exe, shim, root, seed):
+    """a data disk completely emptied, the sync that follows (-E) interrupted in the middle of its parity writes by a kill or
+    a SIGINT: the second sync must bring the parity of EVERY stripe that held blocks of the emptied disk up to date
+    (C06 invariant, clean check, a lost disk recoverable)"""
+    rng = e2e.Rng(seed)
+    a = e2e.Arr(root, exe, ndisks=3, nparity=2, ncontent=2)
+    s = sim.Sim(a, rng.fork(), weird_names=False)
+    for d in a.disks:
+        for i in range(3): a.write(d, 'f%d' % i, rng.bytes(1024 * (8 + rng.below(10))), s.tick())
+    if s.sync().rc != 0:
+        a.destroy(); return None
+    de = rng.choice(a.disks)
+    fx.wipe_disk(a, de); s.log('disk %s emptied' % de)
+    s.remember()
+    lg = os.path.join(vlib.scratch(), 'dempt.log')
+    backup = root + '.bak'
+    shutil.copytree(a.root, backup, symlinks=True)
+    a.cmd('sync', '--force-empty', env={'LD_PRELOAD': shim, 'VERIF_LOG': lg}, uselog=False)
+    pw = [int(l.split(' ')[0]) for l in open(lg, errors='replace') if ' pwrite ' in l and '/par/' in l and l.split(' ')[0].isdigit()]
+    os.unlink(lg)
+    out = None
+    if len(pw) > 4:
+        for mode in ('kill', 'sigint'):
+            shutil.rmtree(a.root); shutil.copytree(backup, a.root, symlinks=True)
+            k = pw[1 + rng.below(len(pw) // 2)]
+            env = {'LD_PRELOAD': shim}
+            if mode == 'kill': env['VERIF_KILL'] = '%d:before' % k
+            else: env['VERIF_SIGNAL'] = '%d:%d' % (k, signal.SIGINT)
+            r = a.cmd('sync', '--force-empty', env=env, uselog=False)
+            r2 = s.sync()
+            if r2.rc != 0:
+                out = '[emptied-disk] the sync after an interrupted sync (%s at call %d) of an emptied disk %s fails (exit %d)' % (mode, k, de, r2.rc); break
+            pr, st = s.invariant_problems()
+            c = a.cmd('check')
+            if pr or c.rc != 0:
+                out = '[emptied-disk] disk %s emptied, sync -E interrupted (%s at state-changing call %d), second sync exits 0, but %s' % (de, mode, k, pr[0] if pr else 'check exits %d' % c.rc); break
+    shutil.rmtree(backup, ignore_errors=True)
+    a.destroy()
+    return out
+
 def directed_shrink(exe, shim, root):
     """the recorded finding C07-shrink, replayed on every run: returns violation text or None"""
     a = e2e.Arr(root, exe, ndisks=2, nparity=1, ncontent=1)
@@ -383,6 +427,11 @@ def main(tier, seed):
         if dv:
             chk.violation('C07 ' + dv, dv, True, 'copies'); break
     chk.extra['directed_C07_copies'] = dv or 'ok'
+    for rep in range(2 if tier == 'quick' else 20):
+        dv = directed_emptied(exe, shim, os.path.join(vlib.scratch(), 'dempt%d' % rep), seed * 100000 + 59000 + rep)
+        if dv:
+            chk.violation('C07 ' + dv, dv, True, 'emptied'); break
+    chk.extra['directed_C07_emptied'] = dv or 'ok'
     ns, nf = (24, 10) if tier == 'quick' else (160, 60)
     stats = {'runs': 0, 'not_fired': 0, 'modes': {}, 'recover_meanwhile': 0}
     jobs = [('sync', i) for i in range(ns)] + [('fix', i) for i in range(nf)]
@@ -405,7 +454,7 @@ def main(tier, seed):
             chk.violation('C07 static obligation failed: ' + o[0], o[0] + '\n' + o[2], False, 'static')
     chk.evaluations = stats['runs']
     chk.distinct = stats['runs'] - stats['not_fired']
-    chk.rule = ('%d sync scenarios (adds only / mixed pending changes, 1-3 parities, 1-3 content copies, split parity, forced autosave) and %d fix scenarios; the process is killed before/after/in the middle of state-changing call k (all k in thorough, 10 seeded incl. first and last in quick) or receives SIGINT there; oracle: data dirs byte-identical, status loads a content file, (adds only) previously synced files recoverable from 1 lost device after a kill and up to N after a graceful stop, re-run sync succeeds, C06 invariant + check pass; fix re-run equals the uninterrupted fix' % (ns, nf))
+    chk.rule = ('%d sync scenarios (adds only / mixed pending changes, 1-3 parities, 1-3 content copies, split parity, forced autosave) and %d fix scenarios; the process is killed before/after/in the middle of state-changing call k (all k in thorough, 10 seeded incl. first and last in quick) or receives SIGINT there; oracle: data dirs byte-identical, status loads a content file, (adds only) previously synced files recoverable from 1 lost device after a kill and up to N after a graceful stop, re-run sync succeeds, C06 invariant + check pass; fix re-run equals the uninterrupted fix; lost devices may take one content copy along; emptied disks in interrupted change sets; directed: several content copies with kill points after the first parity write, and an emptied disk with the sync -E interrupted by kill / SIGINT' % (ns, nf))
     chk.samples = [dict(stats)]
     chk.corr['E2E-CRASH'] = dict(stats)
     chk.finish()
